@@ -269,13 +269,71 @@ def run_jump(repo, m, finalT, exact, pre_tau, eps, safety, runs=2, salt=""):
     for _ in range(runs):
         ab = w.abs(me, fn.module)
         ab.class_methods = set(repo.all_methods(cls)) | {g for c in repo.mro(cls) for g in c.getters}
-        params = fn.params[1:]
-        args = dict(zip(params, [finalT, exact, True, None]))
+        # by name: _jump is a private routine, its parameter list may be reorganised
+        known = {"finalT": finalT, "exact": exact, "full_output": True, "seed": None}
+        unknown = [p for p in fn.params[1:] if p not in known]
+        if unknown or "finalT" not in fn.params:
+            raise Undecided("_jump takes %s" % fn.params[1:])
+        args = {p: known[p] for p in fn.params[1:]}
         kind, out = ab.run_function(fn.node, args)
         outs.append((kind, out))
         if kind == "raise":
             break
     return fn, outs, me, script
+
+
+def _by_role(out):
+    """the four records of a path in the order (states, counts, times, steps), whatever order the private routine hands them back
+    in: states and times have one entry more than counts and steps (the starting point); states and counts have an entry per
+    state / event, times and steps are plain numbers.  An ambiguous record (no step taken) keeps the given order"""
+    def rows(v):
+        return v.tolist() if isinstance(v, NumArr) else list(v) if isinstance(v, (list, tuple)) else None
+    recs = [rows(v) for v in out]
+    if any(r is None for r in recs):
+        return out
+    lens = sorted({len(r) for r in recs})
+    if len(lens) != 2 or lens[1] != lens[0] + 1:
+        return out
+    def vec(r):
+        return bool(r) and isinstance(r[0], (list, tuple))
+    longs = [i for i, r in enumerate(recs) if len(r) == lens[1]]
+    shorts = [i for i, r in enumerate(recs) if len(r) == lens[0]]
+    if len(longs) != 2 or len(shorts) != 2 or lens[0] == 0:
+        return out
+    X = [i for i in longs if vec(recs[i])]
+    T = [i for i in longs if not vec(recs[i])]
+    J = [i for i in shorts if vec(recs[i])]
+    D = [i for i in shorts if not vec(recs[i])]
+    if not (len(X) == len(T) == len(J) == len(D) == 1):
+        return out
+    return (out[X[0]], out[J[0]], out[T[0]], out[D[0]])
+
+
+def jump_return_order(repo):
+    """in which order the private `_jump` hands back its four records: a permutation p with (states, counts, times, steps)[k] at
+    position p[k] - found by interpreting the real routine once on a small model and telling the records apart by their shape"""
+    m = tiny_models()[0]
+    try:
+        fn, outs, me, script = run_jump(repo, m, 2.0, True, None, 0.03, lambda tau: tau, runs=1)
+    except (Undecided, AnalysisError):
+        return (0, 1, 2, 3)
+    kind, out = outs[0]
+    if kind != "return" or not (isinstance(out, (tuple, list)) and len(out) == 4):
+        return (0, 1, 2, 3)
+    roles = _by_role(out)
+    pos = []
+    for r in roles:
+        pos.append(next(i for i, o in enumerate(out) if o is r))
+    return tuple(pos) if sorted(pos) == [0, 1, 2, 3] else (0, 1, 2, 3)
+
+
+def in_jump_order(repo, states, counts, times, steps):
+    """a recorded path handed to `solve_stochast` the way the current `_jump` would hand it over"""
+    p = jump_return_order(repo)
+    out = [None] * 4
+    for role, val in zip(p, (states, counts, times, steps)):
+        out[role] = val
+    return tuple(out)
 
 
 def script_gen_registry(fn, outs, me, script):
@@ -371,8 +429,9 @@ def check_walks(repo, res, rule="R-WALK", only_exact=None, models=None, tier="qu
             if kind == "raise":
                 d = "the run raises %s; the walk defined by the model %s%s" % (out, _short(want), which)
             elif not (isinstance(out, (tuple, list)) and len(out) == 4):
-                d = "_jump returns %r instead of (states, counts, times, steps)" % (out,)
+                d = "_jump returns %r instead of the four records (states, counts, times, steps)" % (out,)
             else:
+                out = _by_role(out)
                 d = first_record_diff(out, want)
                 if d is not None:
                     d += which
@@ -430,11 +489,33 @@ LIMIT_CASES = [
 ]
 
 
+def _first_reaction(repo, x, lims, t, V, rates, script):
+    """interpret the public firstReaction(x, x_lims, t, state_change_mat, transition_func, seed) - documented to return
+    (t_new, jump_time, x_new, jumps, success) - with constant rates and state-change matrix; its private helpers are inlined from
+    their source, whatever their contracts are"""
+    f = _func(repo, "firstReaction")
+    w = World(repo, script)
+    nS = len(x)
+
+    def roles(name, xx, tt):
+        if not (isinstance(xx, (NumArr, list, tuple)) and len(xx) == nS) or isinstance(tt, (NumArr, list, tuple, bool)) or not isinstance(tt, (int, float)):
+            raise Raised("TypeError(%s called with (%s, %s): it takes (state, time))" % (name, type(xx).__name__, type(tt).__name__))
+    vfn = ("py", lambda xx, tt: (roles("state_change_mat", xx, tt), NumArr([list(r) for r in V]))[1])
+    rfn = ("py", lambda xx, tt: (roles("transition_func", xx, tt), NumArr(list(rates)))[1])
+    ab = w.abs(None, f.module)
+    want_params = ["x", "x_lims", "t", "state_change_mat", "transition_func"]
+    if f.params[:5] != want_params:
+        # the documented public signature changed: positional callers of the package would break too - but that is not for this rule to say
+        raise Undecided("firstReaction no longer takes %s" % want_params)
+    return f, ab.run_function(f.node, {"x": x, "x_lims": lims, "t": t, "state_change_mat": vfn, "transition_func": rfn, "seed": None})
+
+
 def check_checkjump(repo, res, rule="R-LIMIT"):
-    """_checkJump(x, x_new, x_lims, t, jump_time, jumps): accepted -> (t + jump_time, jump_time, x_new, jumps, True);
-    rejected -> (t, jump_time, x, jumps, False); rejected iff some state leaves [lower, upper]"""
-    f = _func(repo, "_checkJump")
+    """limits, at the public single-reaction step: firstReaction with one event that moves the probed state to the proposed value.
+    accepted -> (t + jump_time, jump_time, x_new, jumps, True); rejected -> (t, jump_time, x, jumps, False); rejected iff a state
+    leaves [lower, upper]"""
     bad, n = [], 0
+    f = _func(repo, "firstReaction")
     for pos in (0, 1, 2):
         for lim, val, ok in LIMIT_CASES:
             lims = [(0, None), (0, None), (0, None)]
@@ -442,20 +523,21 @@ def check_checkjump(repo, res, rule="R-LIMIT"):
             x = NumArr([4, 4, 4])
             xn_l = [3, 5, 4]
             xn_l[pos] = val
-            x_new = NumArr(list(xn_l))
-            jumps = [0, 1, 0]
-            w = World(repo, Script())
+            V = [[xn_l[i] - 4] for i in range(3)]           # one event whose column takes x to the proposed state
+            script = Script()
             try:
-                kind, out = _call(repo, w, f, [x, x_new, lims, 2.0, 0.5, jumps])
+                f, (kind, out) = _first_reaction(repo, x, lims, 2.0, V, [1.0], script)
             except Undecided as e:
                 res.undecided(rule, f, "limit-cases", "outside the modelled subset: %s" % e)
                 return 0
             n += 1
-            want = (2.5, 0.5, xn_l, jumps, True) if ok else (2.0, 0.5, [4, 4, 4], jumps, False)
-            got = out
+            dt = Script().exp_scale(1.0)
+            want = (2.0 + dt, dt, xn_l, [1], True) if ok else (2.0, dt, [4, 4, 4], [1], False)
             if kind == "raise" or not (isinstance(out, tuple) and len(out) == 5) or not close(list(out[:4]), list(want[:4])) or out[4] is not want[4]:
-                bad.append("state %d with limits %r proposed %r: %s, expected %s" % (pos, lim, val, ("raises %s" % out) if kind == "raise" else _fmt_t(got), _fmt_t(want)))
-    res.check(not bad, rule, f, "limit-cases", "%d (position, limit shape, value) cases: a step is accepted iff every state stays inside its limits; a rejected step leaves state and time unchanged" % n,
+                bad.append("state %d with limits %r proposed %r: %s, expected %s" % (pos, lim, val, ("raises %s" % out) if kind == "raise" else _fmt_t(out), _fmt_t(want)))
+            elif not close(x, [4, 4, 4]):
+                bad.append("state %d with limits %r proposed %r: the caller's state vector is modified in place (%s)" % (pos, lim, val, _fmt(x.tolist())))
+    res.check(not bad, rule, f, "limit-cases", "%d (position, limit shape, value) cases through firstReaction: a step is accepted iff every state stays inside its limits; a rejected step leaves state and time unchanged" % n,
               "; ".join(bad[:3]), node=f.node)
     return n
 
@@ -467,55 +549,67 @@ def _fmt_t(t):
 
 
 def check_update(repo, res, rule="R-STEP"):
-    f = _func(repo, "_updateStateWithJump")
+    """the state update of a single reaction, at the public step: the new state is x + (column of the fired event), in exact
+    arithmetic for integer and real states and magnitudes, and the caller's state is not modified"""
+    f = _func(repo, "firstReaction")
     bad, n = [], 0
-    # integer and real state vectors, integer and fractional magnitudes, integer and real counts: the result is always x + V[:, idx]*n in exact arithmetic
     cases = (("int state, int magnitudes", [10, 20], [[-1, 0, 2], [1, -3, 0]]),
              ("real state, int magnitudes", [10.0, 20.0], [[-1, 0, 2], [1, -3, 0]]),
              ("int state, fractional magnitudes", [10, 20], [[-0.5, 0.0, 2.5], [0.5, -1.5, 0.0]]),
              ("real state, fractional magnitudes", [10.5, 20.25], [[-0.5, 0.0, 2.5], [0.5, -1.5, 0.0]]))
     for label, x0, V in cases:
         for idx in (0, 1, 2):
-            for cnt in (None, 1, 4, 0, 3.0):
-                x = NumArr(list(x0))
-                w = World(repo, Script())
-                args = [x, idx, NumArr([list(r) for r in V])] + ([] if cnt is None else [cnt])
-                try:
-                    kind, out = _call(repo, w, f, args)
-                except Undecided as e:
-                    res.undecided(rule, f, "column-update", "outside the modelled subset: %s" % e)
-                    return 0
-                n += 1
-                c = 1 if cnt is None else cnt
-                want = [x0[0] + V[0][idx] * c, x0[1] + V[1][idx] * c]
-                if kind == "raise" or not close(out, want):
-                    bad.append("%s, event %d fired %s time(s): %s, expected x + V[:, %d]*n = %s" % (label, idx, "1 (default)" if cnt is None else cnt, ("raises %s" % out) if kind == "raise" else _fmt(out.tolist() if isinstance(out, NumArr) else out), idx, want))
-                if kind == "return" and not close(x, list(x0)):
-                    bad.append("the input state is modified in place (%s)" % _fmt(x.tolist()))
-    res.check(not bad, rule, f, "column-update", "new state = x + (column of the fired event) * count on %d cases (integer and real states, magnitudes and counts); the input state is not modified" % n,
+            x = NumArr(list(x0))
+            rates = [0.0, 0.0, 0.0]
+            rates[idx] = 2.0
+            try:
+                f, (kind, out) = _first_reaction(repo, x, [(None, None), (None, None)], 1.0, V, rates, Script())
+            except Undecided as e:
+                res.undecided(rule, f, "column-update", "outside the modelled subset: %s" % e)
+                return 0
+            n += 1
+            want = [x0[0] + V[0][idx], x0[1] + V[1][idx]]
+            if kind == "raise" or not (isinstance(out, tuple) and len(out) == 5) or not close(out[2], want) or out[4] is not True:
+                bad.append("%s, event %d fires: %s, expected the new state x + V[:, %d] = %s" % (label, idx, ("raises %s" % out) if kind == "raise" else _fmt_t(out), idx, want))
+            if kind == "return" and not close(x, list(x0)):
+                bad.append("%s, event %d fires: the caller's state vector is modified in place (%s)" % (label, idx, _fmt(x.tolist())))
+    res.check(not bad, rule, f, "column-update", "new state = x + (column of the fired event) on %d cases through firstReaction (integer and real states and magnitudes); the caller's state is not modified" % n,
               "; ".join(bad[:3]), node=f.node)
     return n
 
 
 def check_newjumptimes(repo, res, rule="R-FR"):
-    f = _func(repo, "_newJumpTimes")
+    """the race of the first-reaction method, at the public step: every event with a positive rate draws its own exponential clock
+    with mean 1/rate, in event order; the earliest one fires, time advances by its clock; no positive rate -> no step"""
+    f = _func(repo, "firstReaction")
     bad, n = [], 0
-    for rates in ([2.0, 0.0, 5.0], [0.0, 0.0, 1.5], [0.25], [3.0, 3.5, 0.125, 0.0], [0.0, 0.0]):
+    for rates in ([2.0, 0.0, 5.0], [0.0, 0.0, 1.5], [0.25], [3.0, 3.5, 0.125, 0.0], [0.0, 0.0], [5.0, 0.5, 0.5, 4.0]):
+        nE = len(rates)
+        V = [[(j + 1) if i == j else 0 for j in range(nE)] for i in range(nE)]         # event j moves state j by j + 1: the fired event is visible in the state
+        x = NumArr([10] * nE)
         script = Script()
-        w = World(repo, script)
         try:
-            kind, out = _call(repo, w, f, [NumArr(list(rates)), None])
+            f, (kind, out) = _first_reaction(repo, x, [(None, None)] * nE, 3.0, V, rates, script)
         except Undecided as e:
             res.undecided(rule, f, "clock-per-event", "outside the modelled subset: %s" % e)
             return 0
         n += 1
         ref = Script()
-        want = [ref.exp_scale(1.0 / r) if r > 0 else INF for r in rates]
+        clocks = [ref.exp_scale(1.0 / r) if r > 0 else INF for r in rates]
         if kind == "raise":
             bad.append("rates %s: raises %s" % (rates, out))
-        elif not close(out, want):
-            bad.append("rates %s: clocks %s, expected one exponential clock with mean 1/rate per event in event order (infinite for rate 0): %s"
-                       % (rates, _fmt(out.tolist() if isinstance(out, NumArr) else out), _fmt(want)))
-    res.check(not bad, rule, f, "clock-per-event", "every event gets its own exponential clock with its own rate, in event order; rate 0 -> never (%d rate vectors)" % n,
+            continue
+        if all(c == INF for c in clocks):
+            if not (isinstance(out, tuple) and out and out[-1] is False):
+                bad.append("rates %s (no event can fire): returns %s, expected an unsuccessful step" % (rates, _fmt_t(out)))
+            continue
+        wi = clocks.index(min(clocks))
+        want = (3.0 + clocks[wi], clocks[wi], [10 + (V[i][wi]) for i in range(nE)], [1 if j == wi else 0 for j in range(nE)], True)
+        if not (isinstance(out, tuple) and len(out) == 5) or not close(list(out[:4]), list(want[:4])) or out[4] is not True:
+            bad.append("rates %s: the step is %s; with one exponential clock of mean 1/rate per event drawn in event order (%s) event %d fires first: expected %s"
+                       % (rates, _fmt_t(out), _fmt(clocks), wi, _fmt_t(want)))
+        elif sum(script.count.values()) != sum(ref.count.values()):
+            bad.append("rates %s: %d random numbers are consumed, one clock per event with a positive rate is %d" % (rates, sum(script.count.values()), sum(ref.count.values())))
+    res.check(not bad, rule, f, "clock-per-event", "every event with a positive rate gets its own exponential clock with its own rate, in event order, and the earliest fires (%d rate vectors through firstReaction)" % n,
               "; ".join(bad[:2]), node=f.node)
     return n
